@@ -15,7 +15,7 @@ def describe(tier):
     n = 3 if tier == "quick" else 4
     return dict(
         rule="all dependency graphs on n <= %d named classes: node kind in {struct with fields, field-less struct, array of, union reference of, hybrid class, declared subclass of an array node}; "
-        "structural edges (field by value, field through Ref, array item, union members) to earlier nodes consistent with the kind, plus arbitrary _depends_on "
+        "structural edges (field by value, field through Ref, array item, union members) to earlier nodes consistent with the kind, plus arbitrary _depends_on (on structs, hybrids and unions) "
         "edges (also forward ones, which close cycles); x every non-empty root subset in every order. Oracle: sort_classes(roots) holds the transitive closure, "
         "each class exactly once, each after everything it depends on; the source assembled by ContextCpu._build_sources has each XOBJ_TYPEDEF block once and "
         "passes gcc -fsyntax-only; the declarations are accepted by cffi.FFI().cdef; a real ctx.add_kernels(kernels={}, extra_classes=roots) for every small "
@@ -61,7 +61,7 @@ def graphs(n, max_dep):
             per_node.append(opts)
         if not ok:
             continue
-        dep_candidates = [(i, j) for i in range(n) for j in range(n) if i != j and kinds[i] in ("S", "E", "H")]
+        dep_candidates = [(i, j) for i in range(n) for j in range(n) if i != j and kinds[i] in ("S", "E", "H", "U")]
         for se in itertools.product(*per_node):
             for r in range(0, max_dep + 1):
                 for deps in itertools.combinations(dep_candidates, r):
@@ -93,7 +93,7 @@ def build_classes(kinds, se):
         elif k == "D":
             c = type(name, (classes[se[i][0][0]],), {})  # class N2(N1): pass -- N1 an array class that may be built itself
         elif k == "U":
-            c = type(name, (xo.UnionRef,), dict(_reftypes=[classes[j] for j, _ in se[i]]))
+            c = type(name, (xo.UnionRef,), dict(_reftypes=[classes[j] for j, _ in se[i]], _depends_on=[]))
         classes.append(c)
     return classes
 
